@@ -13,7 +13,9 @@ EXTENDS Integers, Sequences, FiniteSets
 
 \* candidates contributed by one entry: set of <<sym, date, price>>
 EntryCandidates(e) ==
-  LET vests == {<<e.sym, IF d.vdate = 0 THEN e.date ELSE d.vdate, d.price>> : d \in {x \in e.details : x.kind = "vest"}}
+  \* kind "both": ONE detail object carrying a vest-date market value (price) and a fallback price (fprice): it is a
+  \* vest-date value, priced at the vest-date market value
+  LET vests == {<<e.sym, IF d.vdate = 0 THEN e.date ELSE d.vdate, d.price>> : d \in {x \in e.details : x.kind \in {"vest", "both"}}}
       fallbacks == {<<e.sym, e.date, d.price>> : d \in {x \in e.details : x.kind = "fallback"}}
   IN IF vests # {} THEN vests ELSE fallbacks       \* vest-date value beats the fallback inside an entry
 Candidates(entries) == UNION {EntryCandidates(entries[j]) : j \in 1..Len(entries)}
